@@ -459,7 +459,7 @@ def run_srcnum(rep, drv, cfg, box=None, per_chunk=250):
         if o.get("timeout") or o.get("crash") or o.get("panic") or not o.get("ok"):
             # which function does not compile / crashes: run them one by one
             culprits = []
-            one = [{"id": j, "src": SRC_PRELUDE + "E(0, P(function(z, o, id) %s end, 0, 1, id))\n" % it[4], "timeout": 10000,
+            one = [{"id": j, "src": SRC_PRELUDE + "E(0, P(function(z, o, id) %s end, 0, 1, id))\n" % it[4], "timeout": 30000,
                     **({"mode": mode} if mode else {})} for j, it in enumerate(part)]
             o1 = run_lua_cases(drv, one)
             for j, it in enumerate(part):
@@ -664,7 +664,7 @@ def run_formut(rep, drv, tier, per_chunk=60):
     for c0 in range(0, len(items), per_chunk):
         part = items[c0:c0 + per_chunk]
         src = MUT_PRELUDE + "".join(render_item(j, it) for j, it in enumerate(part))
-        cases.append({"id": len(cases), "src": src, "timeout": 10000, "maxev": 100000})
+        cases.append({"id": len(cases), "src": src, "timeout": 30000, "maxev": 100000})
         meta.append(part)
     outs = run_lua_cases(drv, cases)
     nbad = 0
@@ -676,7 +676,7 @@ def run_formut(rep, drv, tier, per_chunk=60):
         per = {}
         if o.get("timeout") or o.get("crash") or o.get("panic") or not o.get("ok"):
             for j, it in enumerate(part):
-                o1 = run_lua_cases(drv, [{"id": 0, "src": MUT_PRELUDE + render_item(0, it), "timeout": 5000}], nproc=1)[0]
+                o1 = run_lua_cases(drv, [{"id": 0, "src": MUT_PRELUDE + render_item(0, it), "timeout": 20000}], nproc=1)[0]
                 if o1.get("timeout") or o1.get("crash") or o1.get("panic") or not o1.get("ok"):
                     per[j] = ("bad", o1)
                 else:
@@ -829,7 +829,7 @@ def replay(prop, path, family="num"):
     drv = build_driver()
     if r.get("kind") == "expr":
         body = r["lua"]
-        o = run_lua_cases(drv, [{"id": 0, "src": "emit(pcall(function() %s end))" % body, "timeout": 10000}], nproc=1)[0]
+        o = run_lua_cases(drv, [{"id": 0, "src": "emit(pcall(function() %s end))" % body, "timeout": 30000}], nproc=1)[0]
         if o.get("timeout") or o.get("crash") or o.get("panic") or not o.get("events"):
             print("STILL-FAILING: hang or crash: %s" % json.dumps({k: o.get(k) for k in ("timeout", "panic", "errstr")}))
             return 1
@@ -840,7 +840,7 @@ def replay(prop, path, family="num"):
             return 1
         return 0
     if r.get("kind") == "srcnum":
-        c = {"id": 0, "src": SRC_PRELUDE + "E(0, P(function(z, o, id) %s end, 0, 1, id))\n" % r["lua"], "timeout": 10000}
+        c = {"id": 0, "src": SRC_PRELUDE + "E(0, P(function(z, o, id) %s end, 0, 1, id))\n" % r["lua"], "timeout": 30000}
         if r.get("mode"):
             c["mode"] = r["mode"]
         o = run_lua_cases(drv, [c], nproc=1)[0]
@@ -860,7 +860,7 @@ def replay(prop, path, family="num"):
             return 1
         return 0
     if r.get("kind") == "formut":
-        o = run_lua_cases(drv, [{"id": 0, "src": r["program"], "timeout": 5000}], nproc=1)[0]
+        o = run_lua_cases(drv, [{"id": 0, "src": r["program"], "timeout": 20000}], nproc=1)[0]
         if o.get("timeout") or o.get("crash") or o.get("panic") or not o.get("ok"):
             print("STILL-FAILING: the program hangs or crashes")
             return 1
@@ -870,7 +870,7 @@ def replay(prop, path, family="num"):
             return 1
         return 0
     if r.get("kind") == "for":
-        o = run_lua_cases(drv, [{"id": 0, "src": r["program"], "timeout": 5000}], nproc=1)[0]
+        o = run_lua_cases(drv, [{"id": 0, "src": r["program"], "timeout": 20000}], nproc=1)[0]
         if o.get("timeout") or o.get("crash") or o.get("panic") or not o.get("ok"):
             print("STILL-FAILING: %s hangs or crashes" % r["lua"])
             return 1
@@ -903,12 +903,12 @@ def run_for(rep, drv, tier, per_chunk=60):
     for mode in ("lit", "run"):
         for c0 in range(0, len(trip), per_chunk):
             items = [(c0 + k, l["a"], l["b"], l["s"]) for k, l in enumerate(trip[c0:c0 + per_chunk])]
-            cases.append({"id": len(cases), "src": render_for(lat, items, mode, K), "timeout": 10000, "maxev": 100000})
+            cases.append({"id": len(cases), "src": render_for(lat, items, mode, K), "timeout": 30000, "maxev": 100000})
             meta.append((mode, items))
     outs = run_lua_cases(drv, cases)
 
     def one(mode, item):
-        o = run_lua_cases(drv, [{"id": 0, "src": render_for(lat, [item], mode, K), "timeout": 5000}], nproc=1)[0]
+        o = run_lua_cases(drv, [{"id": 0, "src": render_for(lat, [item], mode, K), "timeout": 20000}], nproc=1)[0]
         return o
 
     outcome = {"err": 0, "skip": 0, "vals": 0}
